@@ -172,6 +172,9 @@ def compare(got, spec, axioms=(), pc=None, nan=True):
         env, a, b = w
         if abs(a - b) > Fraction(1, 1000) * max(1, abs(a), abs(b)):
             return R.REFUTED, 'differs from the definition at %s: got %s, definition %s' % (X.show_env(env), a, b)
+    gw = gross_witness(got, spec)
+    if gw is not None:
+        return R.REFUTED, 'differs from the definition: %s' % gw
     if pg is not None:
         # normal forms over lanes, inverses, square roots and sines / cosines of independent angles: an exact rational point (angles as rational points of the
         # unit circle) at which they take different values refutes the identity
@@ -188,6 +191,38 @@ def compare(got, spec, axioms=(), pc=None, nan=True):
             pass
         return R.UNDECIDED, 'normal forms differ in opaque atoms: got %s ; definition %s' % (P.show_poly(pg, limit=5), P.show_poly(ps, limit=5))
     return R.UNDECIDED, 'no normal form'
+
+
+_GW_VALUES = (1.0, -1.0, 0.0, 2.0, 0.5, -3.0, 0.25, -0.5, 3.0, 1.5, -2.0, 0.75)
+
+
+def gross_witness(got, spec, need=2, rel=1e-2):
+    """concrete evaluation of the two derived terms (IEEE arithmetic of their own width) at a fixed list of small exactly representable inputs: when both are finite at
+    `need` points and differ there by more than `rel` of their magnitude (orders of magnitude above any reassociation or contraction difference at such inputs), the
+    points are returned as the witness.  Used for refutation only."""
+    from . import ceval as CE
+    ins = sorted({x for t in (got, spec) for x in tm.walk(t) if x.op == 'in'}, key=lambda q: (str(q.args[0]), q.args[1], q.w))
+    if not ins or len(ins) > 16 or any(x.w not in (32, 64) for x in ins):
+        return None
+    found = []
+    state = 12345
+    for trial in range(48):
+        combo = []
+        for _ in ins:
+            state = (state * 1103515245 + 12345) & 0x7fffffff
+            combo.append(_GW_VALUES[(state >> 16) % len(_GW_VALUES)])
+        env = {x: CE.f2b(x.w, v) for x, v in zip(ins, combo)}
+        try:
+            a, b = CE.b2f(got.w, CE.evaluate(got, env)), CE.b2f(spec.w, CE.evaluate(spec, env))
+        except Exception:
+            continue
+        if a != a or b != b or abs(a) == float('inf') or abs(b) == float('inf'):
+            continue
+        if abs(a - b) > rel * max(1.0, abs(a), abs(b)):
+            found.append('at %s: got %r, definition %r' % (', '.join('%s = %r' % (tm.show(x), v) for x, v in zip(ins, combo)), a, b))
+            if len(found) >= need:
+                return ' ; '.join(found)
+    return None
 
 
 NAN_PROPAGATING = {'fadd', 'fsub', 'fmul', 'fdiv', 'fneg', 'fma', 'sqrt', 'fpext', 'fptrunc', 'fabs'}
